@@ -74,6 +74,12 @@ struct FdEnt {
 
 struct Node {
     int task = -1;
+    // signals, as far as the programs can arrange them for themselves: dispositions set with sigaction()/signal(), alarm(); a pending
+    // signal is delivered where the program blocks (recv, read, poll, sleep); a handler installed without SA_RESTART makes that call fail with EINTR
+    struct SigAct { void (*handler)(int) = nullptr; bool ign = false, restart = false, siginfo = false; };
+    SigAct sigact[32];
+    uint32_t sig_pending = 0;
+    uint64_t alarm_gen = 0;
     bool stdout_fault_seen = false;  // a write() to standard output failed or was cut short by the simulator
     std::string name, prog;
     int64_t clock_offset = 0;  // node CLOCK_REALTIME = world.now + clock_offset
@@ -194,6 +200,8 @@ class World {
     int cur_node_id();
     void sched_point();
     void block_on(std::vector<int> wait_fds, uint64_t wake_time = 0);
+    // delivers the pending signals of the running node; true if a blocking call has to return EINTR
+    bool deliver_signals();
     uint64_t node_time(int node) const { return now + (uint64_t)nodes[node].clock_offset; }
     uint64_t node_time_q(int node) const { uint64_t t = node_time(node); return clock_gran > 1 ? t - t % clock_gran : t; }
     int alloc_fd(FdEnt::Kind k);
